@@ -246,7 +246,7 @@ def gen():
              "let k: u8 = kani::any();\nlet j: u8 = kani::any();\nkani::assume(k <= 2 && j <= 2);\n"
              + DRAIN_USE.replace("lo..hi", "r") + "\n" + POST, ["drain", "next", "next_back", "len"],
              "every (Bound<usize>, Bound<usize>) pair denoting start <= end <= n without overflow (others panic in Vec::drain on both sides; "
-             "not observable by the runner); k, j <= 2", n, thorough=True)
+             "not observable by the runner); k, j <= 2", n, thorough=K not in ("rgba", "hsva"))
 
         # -------------------------------------------------------------------- multi-step scripts
         for n in (2, 3):
